@@ -273,7 +273,7 @@ fn status_tag(s: &IOStatus) -> String {
     }
 }
 
-/// copy of mpcgen::output_subsets (the 8 subsets in increasing order, then the 8 other orderings)
+/// mpcgen::output_subsets: the 8 subsets in increasing order, then the 8 other orderings
 fn ctx_output_lists() -> Vec<Vec<IOStatus>> {
     crate::mpcgen::output_subsets()
 }
